@@ -77,6 +77,38 @@ CHECKS = {
          'is created; the done callback frees the slot; the unbounded manager creates and tracks a task for every coroutine. '
          'Correspondence incl. garbage collection of weakly held tasks.', '8 C12', TM_NOTE,
          'Lean 4 invariant proof + differential correspondence on a real loop'),
+ 'C03': ('proof', 'Composition theorem reschedule_is_next_occurrence: after an execution at instant t a recurring job reports the least '
+         'admissible occurrence of its trigger strictly after t (scheduler layer C01 + trigger layer C04/C05). The end-to-end statement '
+         'over days to weeks is decided by the correspondence of model and real scheduler under the virtual clock in zones around '
+         'clock changes, month and year ends (incl. timers that fire early), and by an oracle that enumerates occurrences with zoneinfo.',
+         '8 C03', SCHED_NOTE, 'Lean 4 composition of the C01 and C05 theorems + differential correspondence + independent occurrence oracle'),
+ 'C15': ('proof', 'Theorems: a trigger is a value and get_next a function; the two stateful places of the objects are unobservable - any grid '
+         'point as interval anchor gives the same answers, anchoring is idempotent (an object never changes after its first query), and '
+         'a consistent sun cache returns exactly what a recomputation returns (cleared on set_location). The check queries objects, '
+         're-queries in another order, derives with every builder method, copies, builds two jobs from one object and derives filters, '
+         'and compares every answer with the pure model.', '8 C15', PROD_NOTE,
+         'Lean 4 proof of state-unobservability + self-consistency and correspondence checks on real builder objects'),
+ 'C17': ('proof', 'Theorems: any/all/not_, the time window (lower <= t < upper), weekday/day/month membership, locality; wrapped ranges denote '
+         'the obvious sets; single values outside min..max and empty arguments are rejected; every English and German weekday and month '
+         'name (full and abbreviated) maps to its number in the tables read from the imported source on this run (decide +kernel). The '
+         'string front end (split/strip/isdigit/lower) is executable model code validated against the code on ~4000 spellings.',
+         '8 C17', PROD_NOTE, 'Lean 4 proof + kernel-decided name tables regenerated from the source + differential correspondence'),
+ 'C18': ('proof', 'PARTIAL by nature (astronomy is astral\'s): proved that every result is an ephemeris event rounded up to the second, '
+         'strictly later, admitted by the filter; the date search skips dates without event; the same-date lookup is right. False of '
+         'the code: once per solar day (known finding F9, negation witness sun_midnight_fires_twice). The check validates every returned '
+         'instant against astral.sun.elevation and the 23.5-24.5 h spacing on a globe of locations, in DST zones, after relocation.',
+         '8 C18', PROD_NOTE, 'Lean 4 proof over an abstract ephemeris (partial) + validation against astral'),
+ 'C19': ('proof', 'Theorems: None/number/timedelta/ISO duration = now (+ d); aware values denote themselves; a naive datetime shows its wall '
+         'clock reading; a time of day resolves to an instant showing that time today (not before now) or tomorrow (today\'s has passed); '
+         'non-positive durations and instants more than 100 ms in the past are rejected (tolerance measured on the imported source). '
+         'Known finding F3b (raises when the time is skipped/repeated that day).', '8 C19', PROD_NOTE,
+         'Lean 4 proof + differential correspondence under a patched clock in all zone shapes'),
+ 'C20': ('proof', 'Theorems: both policies given are used verbatim; a time inside an hour find_time reported is rejected; acceptance means '
+         'outside every reported hour; the four probes of find_time; validity = PEP 495 (sound for sorted tables); the scan orders of the '
+         'source. That the probed hour covers every day of the year depends on the zone-year being regular: decided per zone-year by '
+         'exhaustive comparison of model, code (module reloaded under a patched clock) and a scan of every clock change of the year, '
+         'with no / only forward / only backward policy given.', '8 C20', PROD_NOTE,
+         'Lean 4 proof of the decision logic + per-zone-year exhaustive correspondence and zone-file scan'),
 }
 def main():
     from registry import PROPS
@@ -90,7 +122,7 @@ def main():
                        'engine': 'lean4+correspondence', 'level_claimed': {'category': cat, 'text': text, 'design_ref': 'DESIGN.md §' + ref},
                        'level_note': note, 'technique': tech})
     claimed = {c['property_id'] for c in checks}
-    na = [{'property_id': f'C{i:02d}', 'reason': 'check under construction in this commit; not claimed yet'}
+    na = [{'property_id': f'C{i:02d}', 'reason': 'not claimed'}
           for i in range(1, 21) if f'C{i:02d}' not in claimed]
     m = {'version': 1,
          'setup_cmd': 'cd lean && lake build EaModel eadriver',
